@@ -279,6 +279,7 @@ func verifV1Domain(a, b JsonNode, metadata []Metadata) bool {
 func verifSetkeysOK(n JsonNode, sk *setkeysMetadata) bool {
 	switch v := n.(type) {
 	case jsonArray:
+		var members []jsonObject
 		for _, e := range v {
 			if o, ok := e.(jsonObject); ok {
 				for k := range sk.keys {
@@ -291,6 +292,19 @@ func verifSetkeysOK(n JsonNode, sk *setkeysMetadata) bool {
 						return false
 					}
 				}
+				// identities are unique within an array (a keyed set)
+				for _, m := range members {
+					same := true
+					for k := range sk.keys {
+						if !m[k].Equals(o[k]) {
+							same = false
+						}
+					}
+					if same {
+						return false
+					}
+				}
+				members = append(members, o)
 			}
 			if !verifSetkeysOK(e, sk) {
 				return false
